@@ -21,8 +21,9 @@ from mc.checks import exprutil as X
 PROPERTY = "C12"
 LEVEL = "exploration"
 RULE = (
-    "all Boolean trees with <= N connectives (and/or binary and ternary at the leaves, not, "
-    "implies, iff) over the atom pool of each profile (see bounds); per tree the complete truth "
+    "all Boolean trees with <= N connectives (and/or binary, in the -nary profiles also ternary "
+    "directly above atoms; not, implies, iff) over the atom pool of each profile (see bounds: "
+    "quick N=3 over 5 atoms, thorough N=3 over 7 atoms and N=4 over 3 atoms); per tree the complete truth "
     "table over the atoms' fluents (p, q(a1) Boolean, n in 0..2); an evaluation = one (tree, "
     "interpretation); non-trivial tree = NNF or DNF is not the input node"
 )
@@ -51,11 +52,12 @@ PROFILES = [
         "N": {"quick": 3},
         "per_shard": 6000,
     },
-    {"name": "atoms5-nary", "leaves": [P, QA1, N_LE_1, T12, F21], "ops": CONN, "N": {"quick": 2, "thorough": 2}},
+    {"name": "atoms5-nary", "leaves": [P, QA1, N_LE_1, T12, F21], "ops": CONN, "N": {"quick": 2, "thorough": 3}, "per_shard": 8000},
     {
         "name": "atoms7",
         "leaves": [P, QA1, N_LE_1, N_EQ_2, T12, F21, T12_23],
         "ops": CONN,
+        "arities": (2,),
         "N": {"thorough": 3},
         "per_shard": 8000,
     },
@@ -72,7 +74,7 @@ PROFILES = [
         "leaves": [P, T12, F21],
         "ops": ["and", "or", "not"],
         "arities": (2,),
-        "N": {"quick": 4, "thorough": 5},
+        "N": {"quick": 3, "thorough": 4},
         "per_shard": 8000,
     },
 ]
